@@ -146,7 +146,7 @@ func New(cfg Cfg, o Opts) (*World, error) {
 			}
 			return dw, nil
 		},
-		CloseWriter: w.TM.Close,
+		CloseWriter: func() error { o.Probe.yield(SeamCloseWriter); return w.TM.Close() },
 		GetReader: func() (config.DriveReaderConfig, error) {
 			if err := o.Probe.hit(SeamOpenReader); err != nil {
 				var dr config.DriveReaderConfig
@@ -160,7 +160,7 @@ func New(cfg Cfg, o Opts) (*World, error) {
 			dr.Drive = &probeReader{r: dr.Drive, p: o.Probe}
 			return dr, nil
 		},
-		CloseReader:    w.TM.Close,
+		CloseReader:    func() error { o.Probe.yield(SeamCloseReader); return w.TM.Close() },
 		MagneticTapeIO: mt,
 	}
 
